@@ -90,6 +90,31 @@ def generate(rng, tier, seed):
                     c.pred("retail MAC = ISO 9797-1 algorithm 3 (related keys)",
                            lambda rep, r=r, i=i: None if (r.ok and rep[i] == "ok\t" + enc_b(r.value)) else f"{r.value.hex() if r.ok else r.err} != {rep[i]}")
                     yield c
+    # message content that looks padded already: block-aligned messages ending in 80, 80 00, 80 00 .. 00, all-zero messages, messages
+    # ending in 00 - under every padding method the MAC is over the message padded once more as the method says
+    for algname, alg, bs, ks in (("des", A.DES, 8, 16), ("aes", A.AES, 16, 32), ("des", A.DES, 8, 8)):
+        for nblk in (1, 2, 3):
+            for z in list(range(0, bs)) + [bs, bs + 1]:
+                for padding in (1, 2, 3):
+                    n = nblk * bs
+                    if z + 1 > n:
+                        continue
+                    data = rb(rng, n - z - 1) + b"\x80" + bytes(z)
+                    key = rb(rng, ks)
+                    c = Case(f"cbc_mac:{algname}:looks-padded", {"len": n, "zeros": z, "padding": padding})
+                    r = c.call("mac.generate_cbc_mac", key, data, padding, None, alg)
+                    i = c.line(f"spec.mac1\ta:{algname}\t{enc_b(key)}\ti:{padding}\t{enc_b(data)}\ti:{bs}")
+                    c.pred("CBC-MAC = ISO 9797-1 algorithm 1 (message that looks padded)",
+                           lambda rep, r=r, i=i: None if (r.ok and rep[i] == "ok\t" + enc_b(r.value)) else f"{r.value.hex() if r.ok else r.err} != {rep[i]}")
+                    yield c
+                    if algname == "des" and ks == 16:
+                        k2 = rb(rng, rng.choice((8, 16, 24)))
+                        c = Case("retail_mac:looks-padded", {"len": n, "zeros": z, "padding": padding})
+                        r = c.call("mac.generate_retail_mac", key, k2, data, padding, None)
+                        i = c.line(f"spec.mac3\t{enc_b(key)}\t{enc_b(k2)}\ti:{padding}\t{enc_b(data)}\ti:8")
+                        c.pred("retail MAC = ISO 9797-1 algorithm 3 (message that looks padded)",
+                               lambda rep, r=r, i=i: None if (r.ok and rep[i] == "ok\t" + enc_b(r.value)) else f"{r.value.hex() if r.ok else r.err} != {rep[i]}")
+                        yield c
     # special key values (constant bytes, DES weak / semi-weak components in every position, text-like keys): "for every key"
     lim = 14 if tier == "quick" else None
     for ks in (8, 16, 24):
